@@ -255,9 +255,13 @@ class Run(object):
             self._cm = [cellmap(p) for p in self.funcs]
         return [canon(p, self.tags, cm) for p, cm in zip(self.funcs, self._cm)]
 
+    STATE_CLAUSES = ('iteration', 'stored', 'stored(i)', 'rest_touched', 'clear_resets', 'op_raised', 'accessor_raised')
+
     def sig(self, clause, j, op=None):
-        return {'clause': clause, 'ptype': self.cfg['levels'][j][0], 'level': j, 'depth': self.D,
-                'mode': self.cfg['mode'], 'op': op}
+        """categorical: clause, type of the level at fault, build mode, inner/outer level; the operation
+        only for the clauses about iteration state (value clauses do not depend on the last op)"""
+        return {'clause': clause, 'ptype': self.cfg['levels'][j][0], 'inner_level': j > 0,
+                'mode': self.cfg['mode'], 'op': op if clause in self.STATE_CLAUSES else None}
 
     def apply(self, op):
         """apply op to the outermost real penalty and to the model; returns exception text or None"""
@@ -287,7 +291,7 @@ class Run(object):
             try:
                 n = p.iteration()
                 y = p.stored()
-                yi = [p.stored(i) for i in range(L.ylen + 2)]
+                yi = [p.stored(i) for i in range(L.ylen + 2)] + [p.stored(slice(0, 2))]
             except Exception as e:
                 out.append((self.sig('accessor_raised', j, opname), 'level %d iteration()/stored() raised %r' % (j, e), {}))
                 continue
@@ -297,10 +301,10 @@ class Run(object):
             if list(y) != L.stored():
                 out.append((self.sig('stored', j, opname),
                             'level %d (%s): stored() = %r, model %r' % (j, L.ptype, y, L.stored()), {'level': j}))
-            want = [L.stored(i) for i in range(L.ylen + 2)]
+            want = [L.stored(i) for i in range(L.ylen + 2)] + [L.stored()[0:2]]
             if yi != want:
                 out.append((self.sig('stored(i)', j, opname),
-                            'level %d (%s): [stored(i) for i<%d] = %r, model %r' % (j, L.ptype, L.ylen + 2, yi, want), {'level': j}))
+                            'level %d (%s): [stored(i) for i<%d] + [stored(slice(0,2))] = %r, model %r' % (j, L.ptype, L.ylen + 2, yi, want), {'level': j}))
             mut, rest = cans[j]
             if rest != self.rest0[j]:
                 diff = [a for a, b in zip(rest[0] + rest[1], self.rest0[j][0] + self.rest0[j][1]) if a != b]
@@ -326,6 +330,7 @@ class Run(object):
             got = []
             wants = self.ref.values_all(x)
             werrs = self.ref.errors_all(x)
+            badv = bade = None      # a wrong inner level makes every level around it wrong: blame the innermost
             for j, p in enumerate(self.funcs):
                 try:
                     g = p(list(x))
@@ -338,22 +343,25 @@ class Run(object):
                 if ok is None:
                     H['value:indeterminate(inf-inf) not judged'] = H.get('value:indeterminate(inf-inf) not judged', 0) + 1
                 elif not ok:
-                    L = self.ref.levels[j]
-                    out.append((self.sig('value', j, opname),
-                                'penalty(%r) at level %d = %r, documented expression gives %r  [levels %r, model state (n, stored) %r]'
-                                % (x, j, _fl(g), want, cfg['levels'][j:], [l.state() for l in self.ref.levels[j:]]),
-                                {'level': j, 'x': x}))
+                    badv = (j, g, want)
                 try:
                     e = p.error(list(x))
                 except Exception as ex:
                     out.append((self.sig('error_raised', j, opname), 'level %d error(%r) raised %r' % (j, x, ex), {'level': j, 'x': x}))
                     e = float('nan')
-                we = werrs[j]
-                ok = agree(e, we, we)
-                if not ok:
-                    out.append((self.sig('error', j, opname),
-                                'error(%r) at level %d = %r, violation magnitude is %r  [levels %r]'
-                                % (x, j, _fl(e), we, cfg['levels'][j:]), {'level': j, 'x': x}))
+                if not agree(e, werrs[j], werrs[j]):
+                    bade = (j, e, werrs[j])
+            if badv is not None:
+                j, g, want = badv
+                out.append((self.sig('value', j, opname),
+                            'penalty(%r) of level %d.. = %r, documented expression gives %r  [levels %r, model state (n, stored) %r]'
+                            % (x, j, _fl(g), want, cfg['levels'][j:], [l.state() for l in self.ref.levels[j:]]),
+                            {'level': j, 'x': x}))
+            if bade is not None:
+                j, e, we = bade
+                out.append((self.sig('error', j, opname),
+                            'error(%r) of level %d.. = %r, violation magnitude is %r  [levels %r]'
+                            % (x, j, _fl(e), we, cfg['levels'][j:]), {'level': j, 'x': x}))
             got.append(f0(x))
             # clauses judged from the implementation's own values, level by level
             for j in range(self.D):
@@ -417,41 +425,34 @@ def check_attributes(run, out):
 
 
 def explore_config(cfg, depth, T, H):
-    """all op sequences of length <= depth on fresh objects; checks once per distinct prefix,
-    point evaluation once per distinct canonical state"""
-    done = set()       # prefixes (tuples of op indices) already checked
+    """every op sequence of length 0..depth, shortest first, each on a freshly built object (the model
+    in lock step); the comparison after the last op of each sequence (its prefixes are sequences of
+    their own); point evaluation once per distinct canonical state of the configuration"""
     seen = set()       # canonical states already evaluated at every point
-    first = True
+    dead = set()       # sequences that ended in an exception: their extensions are not run
     rest0 = None
-    seqs = itertools.product(range(len(OPS)), repeat=depth) if depth else [()]
-    for seq in seqs:
-        run = Run(cfg, rest0)
-        out = []
-        if first:
-            first = False
-            rest0 = run.rest0
-            check_attributes(run, out)
-            seen.add(run.key(run.check_state([], out)))
-            nz, ne = run.check_points([], out, H)
-            T.count('evaluations', 2 * ne)
-            T.count('states')
-            _flush(T, cfg, [], out)
-        T.count('traces')
-        for i, oi in enumerate(seq):
-            exc = run.apply(OPS[oi])
-            pre = seq[:i + 1]
-            if pre in done:
+    for n in range(depth + 1):
+        for seq in itertools.product(range(len(OPS)), repeat=n):
+            if n and seq[:-1] in dead:
+                continue
+            run = Run(cfg, rest0)
+            ops = [OPS[k] for k in seq]
+            out = []
+            T.count('traces')
+            T.count('transitions', n)
+            if n == 0:
+                rest0 = run.rest0
+                check_attributes(run, out)
+            exc = None
+            for op in ops:
+                exc = run.apply(op)
                 if exc is not None:
                     break
-                continue
-            done.add(pre)
-            ops = [OPS[k] for k in pre]
-            out = []
-            T.count('transitions')
             if exc is not None:
-                out.append((run.sig('op_raised', 0, OPNAMES[oi]), '%s raised %s' % (OPNAMES[oi], exc), {}))
+                dead.add(seq)
+                out.append((run.sig('op_raised', 0, OPNAMES[seq[-1]]), '%s raised %s' % (OPNAMES[seq[-1]], exc), {}))
                 _flush(T, cfg, ops, out)
-                break
+                continue
             key = run.key(run.check_state(ops, out))
             if key not in seen:
                 seen.add(key)
@@ -493,7 +494,7 @@ def shard(item):
             T.hist('distinct_states_per_config', k.split(':')[1], v)
         else:
             T.hist('clause_outcomes', k, v)
-    T.sample({'cfg': _cfgtext(cfgs[0]), 'ops': 'all %d sequences of length %d' % (len(OPS) ** depth, depth)}, limit=1)
+    T.sample({'cfg': _cfgtext(cfgs[0]), 'ops': 'all %d sequences of length <= %d' % (sum(len(OPS) ** i for i in range(depth + 1)), depth)}, limit=1)
     return T
 
 
@@ -526,6 +527,14 @@ def shard_misc(item):
                     wa, sa = ra.ref.value(x)
                     wb, sb = rb.ref.value(x)
                     T.count('evaluations', 2)
+                    # a member that is itself wrong is blamed by its own type, not as a fault of `additive`
+                    blame = None
+                    for r_, w_, s_, t_ in ((ra, wa, sa, ta), (rb, wb, sb, tb)):
+                        try:
+                            if agree(r_.funcs[0](list(x)), w_, s_) is False:
+                                blame = t_
+                        except Exception:
+                            blame = t_
                     for name, fn, want, scale in (('additive', both, wa + wb, sa + sb),
                                                   ('additive twice', third, wa + wb + wb, sa + 2 * sb)):
                         try:
@@ -536,8 +545,9 @@ def shard_misc(item):
                         if ok is None:
                             T.hist('clause_outcomes', 'additive:indeterminate not judged')
                         elif not ok:
-                            T.violate({'clause': 'additive', 'ptype': ta, 'with': tb, 'twice': name != 'additive'},
-                                      {'misc': 'additive', 'ta': ta}, '%s(%s)(%s) at %r = %r, sum of the documented values %r'
+                            sig = ({'clause': 'value', 'ptype': blame, 'inner_level': False, 'mode': 'decorate', 'op': None} if blame
+                                   else {'clause': 'additive', 'twice': name != 'additive'})
+                            T.violate(sig, {'misc': 'additive', 'ta': ta}, '%s(%s)(%s) at %r = %r, sum of the documented values %r'
                                       % (name, _cfgtext(cfb), _cfgtext(cfa), x, g, want))
                         else:
                             T.hist('clause_outcomes', 'additive:sum agrees')
@@ -562,7 +572,12 @@ def shard_misc(item):
                     g = e
                 ok = agree(g, want, scale) if not isinstance(g, Exception) else False
                 if ok is False:
-                    T.violate({'clause': 'call_arguments', 'ptype': ta, 'with': tb}, {'misc': 'args', 'ta': ta},
+                    try:
+                        wi, si = ref.value(x, 1, (2.0,), {'b': 0.5})
+                        inner_ok = agree(inner(list(x), 2.0, b=0.5), wi, si) is not False
+                    except Exception:
+                        inner_ok = False
+                    T.violate({'clause': 'call_arguments_or_value', 'ptype': ta if inner_ok else tb}, {'misc': 'args', 'ta': ta},
                               '%s(%s)(%s(x0-1)(f2))(%r, 2.0, b=0.5) = %r, expected f2(x,2.0,b=0.5) + penalties = %r' % (ta, ca, tb, x, g, want))
                 else:
                     T.hist('clause_outcomes', 'call arguments reach f')
@@ -626,9 +641,8 @@ def run(ctx):
     depth = 5 if ctx.thorough else 4
     cfgs = configs(ctx.thorough)
     chunk = 6 if ctx.thorough else 12
-    # interleave so that every shard holds a mix of cheap and expensive configurations
-    n = (len(cfgs) + chunk - 1) // chunk
-    items = [('cfg', (cfgs[i::n], depth)) for i in range(n)]
+    # contiguous chunks, simplest configurations first: the first case kept per signature is the smallest
+    items = [('cfg', (cfgs[i:i + chunk], depth)) for i in range(0, len(cfgs), chunk)]
     items += [('misc', (t, ctx.thorough)) for t in TYPES]
     by = {}
     for c in cfgs:
@@ -647,8 +661,9 @@ def run(ctx):
         'additive': '81 type pairs x 16 condition pairs x %d pairs of op prefixes' % (16 if ctx.thorough else 8),
     }
     ctx.rule = ("for every configuration, every op sequence of the stated length over the 5 operations is executed on a freshly "
-                "built real penalty in lock step with the model (traces = sequences run; transitions = distinct (prefix, op) edges, each "
-                "compared once: iteration(), stored(), stored(i), closure cells at every level); at every distinct canonical closure "
+                "built real penalty in lock step with the model, shortest first (traces = sequences run, transitions = operations executed; "
+                "after the last operation of each sequence iteration(), stored(), stored(i) and all closure cells of every level are "
+                "compared - every prefix is a sequence of its own, so every operation of every sequence is judged); at every distinct canonical closure "
                 "state of a configuration penalty(x) and error(x) are compared at every grid point and every nesting level "
                 "(evaluations). A (configuration, state) is non-trivial when n>0 or a store is non-empty at some level and the "
                 "penalty differs from the decorated function at one grid point or more")
